@@ -439,8 +439,39 @@ func caseConc(res *caseResult, idx int, dir string, seed int64, tier string) {
 				c.violate("C06/create-group/failed", "GetOrCreateConsumerGroup(%s): %v", name, err)
 				return
 			}
-			_ = g.Pending()
 			_ = fq.ConsumerGroupNames()
+			// a group that exists holds the queue ack at or below its own ack from the moment it is in the map
+			// (creation and Sync exclude each other), whatever Sync/GC do concurrently; what it consumes is readable
+			ga, gc := g.AcknowledgedSeq(), g.ConsumedSeq()
+			if qa := fq.Queue().AcknowledgedSeq(); qa > ga {
+				c.violate("C06/conc/queue-ack-beyond-created-group-ack", "group %s was just returned by GetOrCreateConsumerGroup with ack %d consumed %d, the queue ack is %d", name, ga, gc, qa)
+				return
+			}
+			if ga > gc {
+				c.violate("C06/conc/created-group-ack-above-consumed", "group %s was just returned by GetOrCreateConsumerGroup with ack %d > consumed %d", name, ga, gc)
+				return
+			}
+			last := int64(-1)
+			for k := 0; k < 3 && g.Pending() > 0; k++ {
+				sq := g.Consume()
+				if sq != gc+1 {
+					c.violate("C06/conc/consume-not-consecutive", "created group %s: Consume() = %d, expected %d", name, sq, gc+1)
+					return
+				}
+				gc = sq
+				if !c.verify(sq, "created-group") {
+					return
+				}
+				last = sq
+				res.count("conc.created_group_consumed", 1)
+			}
+			if last >= 0 && i%2 == 0 {
+				g.Ack(last)
+			}
+			if qa := fq.Queue().AcknowledgedSeq(); qa > g.AcknowledgedSeq() {
+				c.violate("C06/conc/queue-ack-beyond-created-group-ack", "existing group %s has ack %d, the queue ack is %d", name, g.AcknowledgedSeq(), qa)
+				return
+			}
 			time.Sleep(100 * time.Microsecond)
 			fq.StopConsumerGroup(name)
 			res.count("conc.group_churn", 1)
